@@ -74,6 +74,16 @@ Proof.
   intros HB Hs Hm Hd Hl He Hg. apply (valid_in_domain _ g Hd Hl He Hg). exact (lexer_plain src ss lts HB Hs Hm).
 Qed.
 
+Theorem valid_source_in_domain_nts src ss lts g :
+  Forall byte src -> spec_lex src = Some ss -> Lexer.model_lex [src] = Ok lts ->
+  derives (map lex_token lts) g = true -> line_scoped (map lex_token lts) g = true -> excl g = true ->
+  g_no_paren_suffix g = true -> g_no_trailing_sep g = true ->
+  exists root e, lua_parse (map lex_token lts) = Ok (root, e) /\ consumed (map lex_token lts) e = true /\
+                 writable (map lex_token lts) root = true /\ AstWriterDepth.no_trailing_sep root = true.
+Proof.
+  intros HB Hs Hm Hd Hl He Hg Ht. apply (valid_in_domain_nts _ g Hd Hl He Hg Ht). exact (lexer_plain src ss lts HB Hs Hm).
+Qed.
+
 Section Writers.
 Variable W : spaces_fn.
 Hypothesis HW : forall src ss lts root e valid,
